@@ -332,11 +332,11 @@ def c03_gen(tier, rng):
 
 PROPS = {
     "C03": {
-        "gen": c03_gen, "oracle": c03_oracle, "release": True,
+        "gen": c03_gen, "oracle": c03_oracle, "release": True, "extra_props": ["FloatIEEE"],
         "rule": "complete edge-value pool P x P (quick: complete small pool + sampled numeric/string pairs) for the 14 binary and 2 prefix operators, operands bound as variables and as literals where expressible, plus random boundary-biased pairs; a case is non-trivial if it has two operands or does not evaluate to a plain literal; distinct = distinct case line",
         "assumptions": ["the Coq model of Operator::eval equals the Rust code: checked by this run's correspondence (sampled, both build profiles)",
                         "std oracle: f64::powf of Rust's std for `^`",
-                        "SpecFloat operations of Coq's standard library are IEEE-754 binary64 (Flocq's BinarySingleNaN proves this; not re-proved here)"],
+                        "Props/FloatIEEE.v: the model's SpecFloat operations are the correctly rounded (nearest-even) IEEE-754 binary64 operations on the reals, proved through Flocq 4.1 BinarySingleNaN; these theorems (and only these) depend on the four axioms of Coq's real numbers: ClassicalDedekindReals.sig_not_dec, ClassicalDedekindReals.sig_forall_dec, FunctionalExtensionality.functional_extensionality_dep, Classical_Prop.classic"],
     },
 }
 
@@ -512,7 +512,7 @@ def c02_gen(tier, rng):
         e = G.parenthesize(raw)
         cases.append(ast_tree_case(e, rng, "space"))
         cases.append(ast_tree_case(G.add_redundant_parens(rng, e, 0.3), rng, "tight"))
-    n = 15000 if tier == "quick" else 300000
+    n = 15000 if tier == "quick" else 100000
     for _ in range(n):
         raw = G.rand_expr(rng, rng.randint(1, 6), allow_seq=False)
         e = G.parenthesize(raw)
@@ -520,9 +520,22 @@ def c02_gen(tier, rng):
             e = G.add_redundant_parens(rng, e)
         cases.append(ast_tree_case(e, rng, rng.choice(["space", "tight", "random"])))
     # exhaustive short token sequences: model vs implementation only
-    for seq in G.token_sequences_exhaustive(G.TOKEN_ALPHABET16, 4 if tier == "quick" else 5):
+    for seq in G.token_sequences_exhaustive(G.TOKEN_ALPHABET16, 4):
         cases.append(("TREE\t" + hexs(" ".join(seq)), {"kind": "token-seq"}))
-    return cases
+    yield cases
+    if tier == "thorough":
+        for n in (5, 6):
+            for blk in G.blocks(G.token_sequences_of_length(G.TOKEN_ALPHABET16, n), 400000):
+                yield [("TREE\t" + hexs(" ".join(seq)), {"kind": "token-seq"}) for seq in blk]
+        for _ in range(6):
+            blk = []
+            for _ in range(150000):
+                raw = G.rand_expr(rng, rng.randint(1, 7), allow_seq=False)
+                e = G.parenthesize(raw)
+                if rng.random() < 0.4:
+                    e = G.add_redundant_parens(rng, e)
+                blk.append(ast_tree_case(e, rng, rng.choice(["space", "tight", "random"])))
+            yield blk
 
 
 def c05_gen(tier, rng):
@@ -535,12 +548,16 @@ def c05_gen(tier, rng):
             e = G.add_redundant_parens(rng, e)
         cases.append(ast_tree_case(e, rng, rng.choice(["space", "tight"])))
     alphabet = [",", ";", "(", ")", "1", "a", "="]
-    for seq in G.token_sequences_exhaustive(alphabet, 5 if tier == "quick" else 7):
+    for seq in G.token_sequences_exhaustive(alphabet, 5):
         cases.append(("TREE\t" + hexs(" ".join(seq)), {"kind": "token-seq"}))
+    if tier == "thorough":
+        for n in (6, 7, 8):
+            for blk in G.blocks(G.token_sequences_of_length(alphabet, n), 400000):
+                yield [("TREE\t" + hexs(" ".join(seq)), {"kind": "token-seq"}) for seq in blk]
     # values: chains/tuples of simple elements with effects, against a small reference evaluation
     for _ in range(4000 if tier == "quick" else 60000):
         cases.append(c05_value_case(rng))
-    return cases
+    yield cases
 
 
 def c05_value_case(rng):
@@ -713,8 +730,12 @@ def c13_case(tokens):
 
 
 def c13_gen(tier, rng):
+    if tier == "thorough":
+        for n in (5, 6):
+            for blk in G.blocks(G.token_sequences_of_length(G.TOKEN_ALPHABET16, n)):
+                yield [c13_case(seq) for seq in blk]
     cases = []
-    for seq in G.token_sequences_exhaustive(G.TOKEN_ALPHABET16, 4 if tier == "quick" else 5):
+    for seq in G.token_sequences_exhaustive(G.TOKEN_ALPHABET16, 4):
         cases.append(c13_case(seq))
     for seq in G.token_sequences_random(rng, 20000 if tier == "quick" else 300000, maxlen=10):
         cases.append(c13_case(seq))
@@ -739,7 +760,7 @@ def c13_gen(tier, rng):
             i = rng.randrange(len(toks) - 1)
             toks[i], toks[i + 1] = toks[i + 1], toks[i]
         cases.append(c13_case(toks))
-    return cases
+    yield cases
 
 
 def c13_oracle(case, out, model_out):
@@ -1978,11 +1999,11 @@ def c06_oracle(case, out, model_out):
 
 
 PROPS["C06"] = {
-    "gen": c06_gen, "oracle": c06_oracle,
+    "gen": c06_gen, "oracle": c06_oracle, "extra_props": ["FloatIEEE"],
     "rule": "quoted random Unicode strings (all planes, quotes, backslashes, comment markers, newlines), concatenated and measured; every other escape and missing quotes; decimal (with leading zeros) and hexadecimal (both cases) renderings of boundary and random integers in [0, 2^63), values beyond the range; shortest / 17-digit / fixed / e / E / e+ / e- / leading-dot / trailing-dot renderings of boundary and random finite doubles compared bit-exactly with the correctly rounded value (python float()); literals embedded between operators without spaces; booleans; words that are identifiers; the special words inf / infinity / nan (known finding); non-trivial = every case",
     "nontrivial": lambda c, out: True,
     "assumptions": ["python's float() is the correctly rounded decimal-to-double conversion; used only to search for failing inputs",
-                    "the model's decimal-to-double conversion (SpecFloat division + round to nearest even) equals Rust's f64::from_str: correspondence of this run"],
+                    "the model's decimal-to-double conversion equals Rust's f64::from_str: correspondence of this run; that it IS the nearest double (ties to even) of the exact decimal is Props/FloatIEEE.v IEEE_of_decimal (Flocq; depends on the four real-number axioms of Coq's standard library)"],
 }
 
 
